@@ -24,11 +24,14 @@
     list of these, so every interleaving of sampler-level operations is one of
     the interleavings quantified over).
 
-  What the code rejects: `_reset_adaptation` does `self.start_step = self.nsteps`
-  first, and the setter raises `ValueError` for a value `< 1`: a reset before the
-  proposal's first completed proposal step raises and changes nothing
-  (`AProp.reset = none`). `Chain.reset_proposals` swallows only the
-  `AttributeError` of proposals without adaptation.
+  What the code rejects: nothing any more at a reset.  `_reset_adaptation` assigns
+  `self.start_step = max(self.nsteps, 1)` through the `start_step` setter, which
+  still raises `ValueError` for a value `< 1` (`setStartStep`); the value it is
+  given is never one (`C19_reset_always_succeeds`).  `Chain.reset_proposals`
+  swallows the `AttributeError` of proposals without adaptation.  (A class deriving
+  from `BaseAdaptiveSupport` that never fills `_initial_proposal_params` would raise
+  `NotImplementedError`; no exported class is like that — the generator's
+  `aliasProbeErrors` would show it.)
 
   Core Lean only; executable (`DriverAlias.lean`).
 -/
@@ -80,7 +83,7 @@ structure Variant where
   snapshotStable : Bool        -- running on changed no earlier `state` object (forced history)
   loadDecoupled : Bool         -- a sampler set from a state object and its source did not affect each other
   resetRestores : List Bool    -- 1st, 2nd, 3rd reset restored the construction-time distribution
-  resetStartStep : Bool        -- each reset set `start_step = nsteps`
+  resetStartStep : Bool        -- each reset set `start_step = max(nsteps, 1)`
   staleAfterReset : List String -- attributes that differ from construction right after the first reset
   fields : List FieldSpec
 deriving DecidableEq, Inhabited
@@ -385,13 +388,19 @@ structure AProp where
   slots : List Nat
 deriving Inhabited
 
-/-- `_reset_adaptation` as `Chain.reset_proposals` calls it.
-    `none`: the `start_step` setter raised `ValueError` (`nsteps < 1`); nothing was changed.
+/-- The `start_step` setter: `ValueError("start_step must be >= 1")` for a value `< 1`. -/
+def setStartStep (st : PropSt) (v : Nat) : Option PropSt :=
+  if v < 1 then none else some { st with startStep := v }
+
+/-- `_reset_adaptation` as `Chain.reset_proposals` calls it: `start_step ← max(nsteps, 1)`
+    through the setter (`none` = the setter raised; it never does, `C19_reset_always_succeeds`),
+    then every entry of `_initial_proposal_params` is re-installed.
     A proposal without adaptation has no such method: `AttributeError`, swallowed, untouched. -/
 def AProp.reset (p : AProp) (w : World) : Option (AProp × World) :=
   if p.st.cfg.adaptive then
-    if p.st.nsteps < 1 then none
-    else some ({ p with st := p.st.reset }, w.run (resetAll p.s p.slots))
+    match setStartStep p.st (max p.st.nsteps 1) with
+    | none => none
+    | some st' => some ({ p with st := { st' with events := [] } }, w.run (resetAll p.s p.slots))
   else some (p, w)
 
 /-- `BaseProposal.update`: the clock always advances; `_update` (the writes `ws`)
